@@ -94,7 +94,11 @@ func statAll(store *transactionOnly, paths []string) ([]hackpadfs.FileInfo, []er
 	errs := make([]error, len(paths))
 	results, err := getFileRecords(store, paths)
 	if err != nil {
-		return nil, []error{err}
+		// the whole look-up failed: every path shares the failure (callers index both slices by path)
+		for i := range errs {
+			errs[i] = err
+		}
+		return infos, errs
 	}
 	for i := range paths {
 		path := paths[i]
@@ -318,9 +322,10 @@ func (fs *FS) Rename(oldname, newname string) error {
 			return err
 		}
 		txn, err := fs.store.Transaction(TransactionOptions{Mode: TransactionReadWrite})
-		if err == nil {
-			err = fs.setFileTxn(txn, newname, oldFile.fileData, contents)
+		if err != nil {
+			return err // no transaction to abort
 		}
+		err = fs.setFileTxn(txn, newname, oldFile.fileData, contents)
 		if err == nil {
 			err = fs.setFileTxn(txn, oldname, nil, nil)
 		}
